@@ -21,12 +21,13 @@ OBLIGATIONS = [
 # the instantiations compiled into harness/c19.cpp (checked against its `types` answer at run time)
 TYPES = ("B.L.s B.M.s.v4 B.p4 B.s C.s L.C.p4 L.L.s L.R.s L.X.p4.s L.s L.v2 M.P.p1.s.Q.s M.p2.S.s M.p4.R.v2 M.p4.s "
          "M.s.M.p2.s M.s.p8 M.s.v4 P.L.s.S.p4 P.R.p1.R.M.s.p4 P.p4.s P.s.P.p1.v8 Q.L.s Q.p4 Q.s R.B.s R.L.s R.R.s R.p4 R.s "
-         "S.L.s S.P.p2.s S.p4 S.p8 S.s S.v1 U.L.s U.s X.R.s.Q.P.p4.s X.p4.s X.s.X.v2.S.s d8 i4 p1 p2 p4 p8 s v1 v2 v4 v8").split()
+         "S.L.s S.P.p2.s S.p4 S.p8 S.s S.v1 U.L.s U.s X.R.s.Q.P.p4.s X.p4.s X.s.X.v2.S.s d8 i4 p1 p2 p4 p8 s v1 v2 v4 v8 "
+         "W.p4 W.s W.P.p1.s L.W.p2 N.p4.s N.s.v4 N.p1.W.s M.W.p1.s B.A3.s B.p12 B.A2.L.s X.p8.A2.S.s B.A1.M.s.p4").split()
 
 POD = {"p1": 1, "p2": 2, "p4": 4, "p8": 8, "i4": 4, "d8": 8}
 VEC = {"v1": 1, "v2": 2, "v4": 4, "v8": 8}
-UN = {"L": "seq", "Q": "seq", "S": "set", "R": "ptr", "U": "ptr", "C": "ptr", "B": "box"}
-BIN = {"M": "map", "P": "pair", "X": "pair"}
+UN = {"L": "seq", "Q": "seq", "S": "set", "R": "ptr", "U": "ptr", "C": "ptr", "B": "box", "W": "mset"}
+BIN = {"M": "map", "P": "pair", "X": "pair", "N": "mmap"}
 
 
 def parse_ty(words):
@@ -44,6 +45,10 @@ def parse_ty(words):
         a = parse_ty(words)
         b = parse_ty(words)
         return (BIN[w], a, b)
+    if w[0] == "p" and w[1:].isdigit():
+        return ("pod", int(w[1:]))
+    if w[0] == "A" and w[1:].isdigit():
+        return ("arr", parse_ty(words), int(w[1:]))
     raise ValueError(w)
 
 
@@ -85,10 +90,12 @@ def gen_val(rng, t, big=1000, depth=0):
         if rng.random() < 0.03:
             n = big // t[1]
         return rbytes(rng, n * t[1])
-    if k in ("seq", "set"):
+    if k in ("seq", "set", "mset"):
         n = rng.choice((0, 0, 1, 2, 3, 4, 6)) if depth else rng.choice((0, 1, 2, 3, 5, 8, 13))
         return [gen_val(rng, t[1], big, depth + 1) for _ in range(n)]
-    if k == "map":
+    if k == "arr":
+        return [gen_val(rng, t[1], big, depth + 1) for _ in range(t[2])]
+    if k in ("map", "mmap"):
         n = rng.choice((0, 0, 1, 2, 3, 4, 6)) if depth else rng.choice((0, 1, 2, 3, 5, 8))
         return [(gen_val(rng, t[1], big, depth + 1), gen_val(rng, t[2], big, depth + 1)) for _ in range(n)]
     if k == "pair":
@@ -107,11 +114,11 @@ def key(t, v):
         return v
     if k == "vec":
         return tuple(int.from_bytes(v[i:i + t[1]], "little") for i in range(0, len(v), t[1]))
-    if k == "seq":
+    if k in ("seq", "arr"):
         return tuple(key(t[1], x) for x in v)
-    if k == "set":
+    if k in ("set", "mset"):
         return tuple(key(t[1], x) for x in norm(t, v))
-    if k == "map":
+    if k in ("map", "mmap"):
         return tuple((key(t[1], a), key(t[2], b)) for a, b in norm(t, v))
     if k == "pair":
         return (key(t[1], v[0]), key(t[2], v[1]))
@@ -123,8 +130,12 @@ def norm(t, v):
     k = t[0]
     if k in ("pod", "str", "vec"):
         return v
-    if k == "seq":
+    if k in ("seq", "arr"):
         return [norm(t[1], x) for x in v]
+    if k == "mset":
+        return sorted((norm(t[1], x) for x in v), key=lambda x: key(t[1], x))          # stable
+    if k == "mmap":
+        return sorted(((norm(t[1], a), norm(t[2], b)) for a, b in v), key=lambda p: key(t[1], p[0]))   # stable: equal keys keep their order
     if k == "set":
         seen, out = set(), []
         for x in v:
@@ -155,9 +166,11 @@ def toks(t, v):
         return ["x" + v.hex()]
     if k == "str":
         return ["s" + v.hex()]
-    if k in ("seq", "set"):
+    if k in ("seq", "set", "mset"):
         return ["n%d" % len(v)] + [w for x in v for w in toks(t[1], x)]
-    if k == "map":
+    if k == "arr":
+        return [w for x in v for w in toks(t[1], x)]
+    if k in ("map", "mmap"):
         return ["n%d" % len(v)] + [w for a, b in v for w in toks(t[1], a) + toks(t[2], b)]
     if k == "pair":
         return toks(t[1], v[0]) + toks(t[2], v[1])
@@ -172,9 +185,11 @@ def py_save(t, v):
     k = t[0]
     if k in ("pod", "vec", "str"):
         return chunk(v)
-    if k in ("seq", "set"):
+    if k in ("seq", "set", "mset"):
         return chunk(struct.pack("<Q", len(v))) + b"".join(py_save(t[1], x) for x in v)
-    if k == "map":
+    if k == "arr":
+        return b"".join(py_save(t[1], x) for x in v)
+    if k in ("map", "mmap"):
         return chunk(struct.pack("<Q", len(v))) + b"".join(py_save(t[1], a) + py_save(t[2], b) for a, b in v)
     if k == "pair":
         return py_save(t[1], v[0]) + py_save(t[2], v[1])
@@ -297,7 +312,7 @@ def main():
     c.assumptions += [
         "archive length < 2^64 (hypothesis of load_safe/round-trip theorems: a std::string in a 64-bit address space)",
         "round trip: value well-formed (wf: POD sizes, sets/map keys strictly increasing) and sizesFit (every chunk payload < 2^32 bytes, counts < 2^64)",
-        "json::value, fixed-size arrays, multiset/multimap, intrusive/hold/clone_ptr and the session/cache convenience wrappers are not modelled (see design.d/C19.md)",
+        "json::value, intrusive/hold/clone_ptr and the session/cache convenience wrappers are not modelled (see design.d/C19.md)",
     ]
 
     c.translate("c19.py")
@@ -344,7 +359,7 @@ def main():
                 if line and not line.startswith("#"):
                     corpus.append(line)
     casesA, expect = list(corpus), {}
-    per_type = 60 if thorough else 14
+    per_type = 60 if thorough else 24
     big = 70000 if thorough else 3000
     values = []          # (type name, normalized python value)
     for name in TYPES:
